@@ -22,11 +22,12 @@ ASSUMPTIONS = [
 ]
 
 
-def check(s):
-    P = s.prog
+def check_mask_laws(s, rule="C16.1"):
+    """mask() of the maskable laws returns a NEW law of the same class built through its constructor from
+    select(mask, logits, -inf) only - which is what renormalises it (the wrapped distreqx law normalises in its constructor, nowhere
+    else): a masked law is a probability law again, with the masked classes at probability zero."""
     self_ = ("param", "self")
     mask = ("param", "mask")
-    # ---------------------------------------------------------------- C16.1
     for cls in ("Categorical", "Bernoulli"):
         b = s.builder(inline=set())
         nz = Normalizer(b)
@@ -34,33 +35,41 @@ def check(s):
         loc = s.loc(cls, "mask")
         r = p.ret
         ok = isinstance(r, tuple) and r[0] == "record" and r[1].endswith("." + cls)
-        s.ob("C16.1", f"{cls}.mask", ok, f"mask() returns a new {cls}", loc, key="mask-class", detail=show(r, maxlen=160))
+        s.ob(rule, f"{cls}.mask", ok, f"mask() returns a new {cls}", loc, key="mask-class", detail=show(r, maxlen=160))
         if not ok:
             continue
         f = fields(r)
         lg = f.get("arg:logits", f.get("logits"))
         want = s.ref(b, "jnp.where(mask, self.logits, -jnp.inf)", {"mask": mask, "self": self_})
-        s.eq("C16.1", f"{cls}.mask", nz, lg if lg is not None else NONE, want, "masked logits == select(mask, logits, −inf)", loc, key="masked-logits",
+        s.eq(rule, f"{cls}.mask", nz, lg if lg is not None else NONE, want, "masked logits == select(mask, logits, −inf)", loc, key="masked-logits",
              necessary_for="masked actions get probability zero and the remaining probabilities are renormalised proportionally")
-        s.ob("C16.1", f"{cls}.mask", set(f) <= {"arg:logits", "logits"}, "the masked law is built from logits only (no stale probs)", loc, key="mask-args", detail=str(sorted(f)))
+        s.ob(rule, f"{cls}.mask", set(f) <= {"arg:logits", "logits"}, "the masked law is built from logits only (no stale probs)", loc, key="mask-args", detail=str(sorted(f)))
     b = s.builder(inline=set())
     nz = Normalizer(b)
     p = one(s.paths(b, "MultiCategorical", "mask"), "MultiCategorical.mask")
     loc = s.loc("MultiCategorical", "mask")
     r = p.ret
     ok = isinstance(r, tuple) and r[0] == "record" and r[1].endswith(".MultiCategorical")
-    s.ob("C16.1", "MultiCategorical.mask", ok, "mask() returns a new MultiCategorical", loc, key="mask-class", detail=show(r, maxlen=160))
+    s.ob(rule, "MultiCategorical.mask", ok, "mask() returns a new MultiCategorical", loc, key="mask-class", detail=show(r, maxlen=160))
     if ok:
         f = fields(r)
         ref = s.refprog(b, """
 pieces = self._split_or_unpack_params(mask, self.action_dims)[0]
 lg = jnp.concatenate(tuple(jnp.where(m, d.logits, -jnp.inf) for d, m in zip(self.distribution, pieces)), axis=-1)
 """, {"self": self_, "mask": mask})
-        s.eq("C16.1", "MultiCategorical.mask", nz, f.get("arg:logits", NONE), ref["lg"],
+        s.eq(rule, "MultiCategorical.mask", nz, f.get("arg:logits", NONE), ref["lg"],
              "masked logits == concatenate(select(mask_i, logits_i, −inf) per component, in component order)", loc, key="masked-logits",
              necessary_for="each component's masked actions get probability zero")
-        s.ob("C16.1", "MultiCategorical.mask", f.get("arg:action_dims") == ("attr", self_, "action_dims"), "action_dims is carried over unchanged", loc, key="mask-action-dims",
+        s.ob(rule, "MultiCategorical.mask", f.get("arg:action_dims") == ("attr", self_, "action_dims"), "action_dims is carried over unchanged", loc, key="mask-action-dims",
              detail=show(f.get("arg:action_dims", NONE)))
+
+
+def check(s):
+    P = s.prog
+    self_ = ("param", "self")
+    mask = ("param", "mask")
+    # ---------------------------------------------------------------- C16.1
+    check_mask_laws(s, "C16.1")
     # ---------------------------------------------------------------- C16.2
     b = s.builder(inline=set())
     nz = Normalizer(b)
@@ -229,9 +238,13 @@ lg = jnp.concatenate(tuple(jnp.where(m, d.logits, -jnp.inf) for d, m in zip(self
     # the single-factor laws (Categorical, Bernoulli, Normal, ...) sample and score through the one wrapped distreqx law: none overrides
     # sample / log_prob / sample_and_log_prob / mode on its own
     check_thin_wrappers(s, "C16.6")
+    # C16.7 the exploration rate a Q policy runs with is the configured one (epsilon=0.0 must stay 0.0: `epsilon or default` does not)
+    from .util import ctor_wiring
+    for qcls in [c.name for c in P.subclasses("AbstractQPolicy") if "__init__" in c.methods]:
+        ctor_wiring(s, "C16.7", qcls, necessary_for="a Q policy departs from the greedy action with probability at most epsilon (the configured one)")
     # C16.3b every policy / action-head class can be instantiated (its constructor assigns every declared field)
     from .util import fields_initialised
     fields_initialised(s, "C16.3", [c for m_ in sorted(P.modules.values(), key=lambda m__: m__.name) if m_.name.startswith("lerax.policy") for c in m_.classes.values()],
                        necessary_for="masked actions are never chosen end-to-end through actor-critic policies for discrete, multi-discrete and multi-binary actions (the head must exist)")
-    for r_, n_ in (("C16.1", 9), ("C16.2", 10), ("C16.3", 4), ("C16.4", 6), ("C16.5", 16), ("C16.6", 4)):
+    for r_, n_ in (("C16.1", 9), ("C16.2", 10), ("C16.3", 4), ("C16.4", 6), ("C16.5", 16), ("C16.6", 4), ("C16.7", 1)):
         s.floor(r_, n_)
